@@ -35,6 +35,8 @@ def expectation(t: dict, n_data: int, exp_name: str | None, hello_name_len: int)
             # the cut-off tail may by coincidence equal the following bytes (1/256 for one byte):
             # the frame then is byte-identical to the genuine one and is legitimately delivered
             return d + 1, {KEY, PROTO}, False
+        if kind == "shorten":
+            return d, {KEY}, True
         if kind == "drop":
             return d, {KEY}, not last
         if kind == "dup":
@@ -52,6 +54,8 @@ def expectation(t: dict, n_data: int, exp_name: str | None, hello_name_len: int)
             return 0, {KEY}, True
         if kind == "dup":
             return 0, {KEY}, True
+        if kind == "shorten":
+            return 0, ANY_SPECIFIC, True
         return 0, ANY_SPECIFIC, False
     # hello frame
     if kind == "flip":
@@ -64,6 +68,10 @@ def expectation(t: dict, n_data: int, exp_name: str | None, hello_name_len: int)
         if exp_name is not None and pos < 4 + hello_name_len + 1:
             return 0, {NAME, HS}, True
         return None, {NAME, HS}, False
+    if kind == "shorten":
+        # k = 0: empty hello (handshake error); otherwise a hello cut inside / before the name: old-firmware form without a
+        # name is legal when no name is expected
+        return (0, {HS}, True) if t.get("len", 0) == 0 else (None, {NAME, HS}, False)
     return 0, ANY_SPECIFIC, False
 
 
@@ -227,6 +235,12 @@ def full_client_deviation(rng: random.Random) -> dict:
         )
         scn["expect_error"] = KEY
         scn["nothing_written"] = True
+    events: list = []
+    if dev in ("wrong_key", "reject_mac", "reject_other", "selector", "name", "empty_hello") and rng.random() < 0.3:
+        # the deviating answer becomes readable just before the 30 s handshake deadline while the event loop is stalled
+        # past it: the reader runs before the overdue timer, the specific error still wins
+        device["noise_hello_latency" if dev in ("selector", "name", "empty_hello") else "noise_hs_latency"] = pick(rng, [29.9, 29.99])
+        events.append({"at": {"t": pick(rng, [29.8, 29.95])}, "do": "fault", "kind": "stall", "d": pick(rng, [0.3, 1.0, 5.0]), "phase": "pre"})
     scn.update(
         {
             "family": "session",
@@ -235,10 +249,13 @@ def full_client_deviation(rng: random.Random) -> dict:
             "device": device,
             "net": {"cuts": gen_cuts(rng), "d2c_latency": [pick(rng, [0.0, 0.001])], "c2d_latency": pick(rng, [0.0, 0.001])},
             "actors": [{"id": "a0", "at": {"t": 0.0}, "steps": [{"do": "connect", "login": rng.random() < 0.5}]}],
-            "events": [],
+            "events": events,
             "end": 200.0,
         }
     )
+    if events:
+        # the whole answer has to be readable in the turn in which the timer is overdue: one chunk
+        scn["net"]["cuts"] = {"mode": "coalesce"}
     return scn
 
 
@@ -275,6 +292,9 @@ class C04(CheckBase):
                     yield with_tamper(base, {"frame": j, "kind": "truncate", "len": n})
             for kind in ("dup", "swap", "drop"):
                 yield with_tamper(base, {"frame": j, "kind": kind})
+            for n in sorted({0, 1, 2, 15, 16, 17, max(0, L - 4)} | ({rng.randrange(max(1, L - 3))} if L > 3 else set())):
+                if n < L - 3:
+                    yield with_tamper(base, {"frame": j, "kind": "shorten", "len": n})
 
     def oracle(self, run: Any, scn: dict) -> list[Violation]:
         return tamper_oracle(Index(run.history), scn)
